@@ -72,6 +72,11 @@ def gen_scenario(rnd, i, stop):
             progs[rnd.randrange(k)].append({"op": "shutdown"})
         sc["progs"] = progs
         sc["burst_after_us"] = 1500
+    elif i % 4 == 1:
+        # widen the windows inside add_route/shutdown: between the wake-up and the shutdown message, between the
+        # flag and the wake-up, between a route's message and its wake-up
+        sites = ["router.shutdown.woke", "router.shutdown.flag", "router.add.msg"]
+        sc["stalls"] = {rnd.choice(sites): rnd.choice([300, 2000, 8000]) for _ in range(rnd.randrange(1, 3))}
     return sc
 
 
